@@ -1,5 +1,6 @@
 import PoxModel.Base.Proto
 import PoxModel.Model.Conn
+import PoxModel.Model.ConnL
 open Pox Pox.Proto Pox.Conn
 
 def parseMsg (j : J) : Except String Msg := do
@@ -41,13 +42,33 @@ def parseCfg (j : J) : Except String Cfg :=
   | none => throw "missing cfg (the harness reads the variant off the source)"
   | some c => do pure ⟨← c.boolean "d3", ← c.boolean "down", ← c.boolean "read", ← c.boolean "err", ← c.boolean "dpid"⟩
 
-/-- request {"ops":[…],"dpids":[…], "cfg":{d3,down,read,err,dpid}} → {"steps":[[out…]…] (chronological), "reg":[[d, c|null]…],
+/-- request {"ops":[…],"dpids":[…], "listeners"?:{up:"send"|"sendto"|"disc"|null, down:"sendto"|null, stop:bool}, "cfg":{d3,down,read,err,dpid}} → {"steps":[[out…]…] (chronological), "reg":[[d, c|null]…],
     "regnone": c|null, "conns":[{dpid,up,disc,down_raised,closed}…], "next_xid":n} -/
+def parseLst (j : J) : Except String Lst :=
+  match j.get? "listeners" with
+  | none => pure Lst.none
+  | some l => do
+    let up ← match l.get? "up" with
+      | none => pure none
+      | some J.null => pure none
+      | some u => do
+        let k ← u.asStr
+        if k = "send" then pure (some UpAct.send) else if k = "sendto" then pure (some UpAct.sendTo)
+        else if k = "disc" then pure (some UpAct.disc) else throw s!"unknown up listener {k}"
+    let down ← match l.get? "down" with
+      | none => pure false
+      | some J.null => pure false
+      | some d => do
+        let k ← d.asStr
+        if k = "sendto" then pure true else throw s!"unknown down listener {k}"
+    pure { up := up, down := down, stopIfDisc := (← l.boolean "stop") }
+
 def handle (j : J) : Except String J := do
   let cfg ← parseCfg j
+  let lst ← parseLst j
   let ops ← (← j.array "ops").mapM parseOp
   let dpids ← j.nats "dpids"
-  let (s, tr) := run cfg ops
+  let (s, tr) := runL cfg lst ops
   pure (J.mk [
     ("steps", J.arr (tr.reverse.map fun st => J.arr (st.2.map outJ))),
     ("reg", J.arr (dpids.map fun d => J.arr [J.ofNat d, J.ofOptNat (s.reg (some d))])),
